@@ -247,8 +247,8 @@ END_EXT = {
     "hasattr": Ext(ret=Bool, pure=True, uf="has_attr", args=[Union(NoneT, Opaque("proc")), Str], ensures=["implies(a0 is None, not result)"], note="None has no such attribute"),
     "has_attr": Ext(ret=Bool, pure=True, uf="has_attr", args=[Union(NoneT, Opaque("proc")), Str]), "prevs_closed": Ext(ret=Bool, pure=True, uf="prevs_closed", args=[Opaque("proc")]),
     "proc.prevs_are_closed": Ext(ret=Bool, pure=True, attr=True, uf="prevs_closed", args=[Opaque("proc")]),
-    "CommandPipeline._close_prev_procs": Ext(event="close-prevs", log="const", log_type=Int, note="ASSUMED not to raise (waits swallow BaseException, safe_fdclose swallows OSError: their own contracts)"),
-    "CommandPipeline._close_proc": Ext(event="close-last", log="const", log_type=Int, note="ASSUMED not to raise (same)"),
+    "CommandPipeline._close_prev_procs": Ext(event="close-prevs", log="const", log_type=Int, note="its own contract: no exception escapes"),
+    "CommandPipeline._close_proc": Ext(event="close-last", log="const", log_type=Int, note="its own contract: no exception escapes"),
     "CommandPipeline._check_signal": Ext(), "CommandPipeline._apply_to_history": Ext(), "CommandPipeline._apply_to_thread_local": Ext(),
     "CommandPipeline._raise_subproc_error": Ext(raises=["Exception+"], note="its own contract (C05/C09): CalledProcessError after the terminal was returned"),
     "CommandPipeline._endtime": Ext(), "CommandPipeline._set_input": Ext(raises=["Exception+"]),
@@ -262,7 +262,6 @@ contract(
     modifies=["self.ended"],
     raises={"BaseException+": True},
     ensures=_CLOSED, ensures_exc=_CLOSED,
-    assumptions=["_close_prev_procs / _close_proc do not raise"],
     from_property="After any command or pipeline finishes - successfully, with a failure, ... or interrupted - the shell process holds no additional open file descriptors "
                   "(the closing steps sit in a finally: they run on every exit of the drain, once)",
 )
@@ -275,4 +274,54 @@ contract(
              "otherwise-it-is-ended-once-and-the-terminal-goes-back-once": "implies(not old(self.ended), len(log('end')) == 1 and len(log('return-terminal')) == 1)"},
     ensures_exc={"the-closing-steps-were-attempted-once": "len(log('end')) == 1"},
     from_property="terminal ownership ... unchanged after any command finishes",
+)
+
+
+# ---- CommandPipeline._close_proc: the last stage's handles and channels, each released once, no exception escaping ------------------------
+PROCH = Obj("ProcHandles", stdin=HS, stdout=HS, stderr=HS, pipe_channels=List(CHANREC))
+SPECL = Obj("SubprocSpec", stdin=HS, stdout=HS, stderr=HS, captured_stdout=HS, captured_stderr=HS, pipe_channels=List(CHANREC))
+PL3 = Obj("CommandPipeline", spec=SPECL, proc=Nullable(PROCH))
+CP_EXT = {
+    "hasattr": Ext(ret=Bool, pure=True, uf="has_attr2", note="whether the process object is a thread (has join)"),
+    "ProcHandles.join": Ext(raises=["Exception+"], note="waits (3 s) for a proxy thread; may fail: swallowed"),
+    "getattr": Ext(ret=List(CHANREC), model=lambda R, a, k, n, f, r: R.getattr(a[0], "pipe_channels"), note="getattr(p, 'pipe_channels', ()): the channels of the process object (modelled as always present, possibly empty)"),
+    "CommandPipeline._safe_close": Ext(event="safe-close", log=0, log_type=HS, note="its own contract: never an integer descriptor, never the shell's std streams, at most once, never raises"),
+    "PipeChannel.close": Ext(event="close-channel", log="recv", log_type=CHANREC, note="its own contract: both ends, each at most once"),
+}
+contract(
+    P + "CommandPipeline._close_proc", "C09", params=dict(self=PL3), externals=CP_EXT, emits=["safe-close", "close-channel"],
+    loops={"for#1": dict(invariant={"spec-channels-closed-so-far-in-order": "log('close-channel') == self.spec.pipe_channels[:_i]"}, havoc_only=[]),
+           "for#2": dict(invariant={"then-the-process's-channels-in-order": "log('close-channel') == self.spec.pipe_channels + self.proc.pipe_channels[:_i]"}, havoc_only=[])},
+    ensures={
+        "every-handle-of-the-last-stage-is-released-once-in-order":
+            "implies(self.proc is None, log('safe-close') == [self.spec.stdin, self.spec.stdout, self.spec.stderr, self.spec.captured_stdout, self.spec.captured_stderr]) and "
+            "implies(self.proc is not None, log('safe-close') == [self.spec.stdin, self.spec.stdout, self.spec.stderr, self.spec.captured_stdout, self.spec.captured_stderr, "
+            "self.proc.stdin, self.proc.stdout, self.proc.stderr])",
+        "every-channel-is-closed-once-in-order": "implies(self.proc is None, log('close-channel') == self.spec.pipe_channels) and "
+                                                 "implies(self.proc is not None, log('close-channel') == self.spec.pipe_channels + self.proc.pipe_channels)",
+    },
+    from_property="the shell process holds no additional open file descriptors (closing the last stage: nothing may be skipped, and a failing wait must not prevent the closing)",
+)
+
+
+# ---- CommandPipeline._close_prev_procs: an interrupted or failing wait for an earlier stage must not stop the closing of the rest ----------
+SPECR = ObjRec("SubprocSpec", ident=Int, stdin=HS, stdout=HS, stderr=HS, pipe_channels=Seq(CHANREC))
+PROCR = ObjRec("ProcHandles", ident=Int, stdin=HS, stdout=HS, stderr=HS, pipe_channels=Seq(CHANREC))
+PL4 = Obj("CommandPipeline", specs=List(SPECR), procs=List(Union(NoneT, PROCR)))
+CPP_EXT = {
+    "hasattr": Ext(ret=Bool, pure=True, uf="has_attr3"),
+    "ProcHandles.join": Ext(raises=["BaseException+"], note="waits for a proxy thread; may be interrupted (KeyboardInterrupt) or fail"),
+    "ProcHandles.wait": Ext(raises=["BaseException+"], note="waits for a process; may be interrupted or time out"),
+    "getattr": Ext(ret=Seq(CHANREC), pure=True, uf="channels_of"),
+    "CommandPipeline._safe_close": Ext(event="safe-close", log=0, log_type=HS, note="its own contract: never raises"),
+    "PipeChannel.close": Ext(event="close-channel", log="recv", log_type=CHANREC), "PipeChannel.close_reader": Ext(event="close-reader", log="recv", log_type=CHANREC),
+}
+contract(
+    P + "CommandPipeline._close_prev_procs", "C09", params=dict(self=PL4), externals=CPP_EXT, emits=["safe-close", "close-channel", "close-reader"],
+    requires={"one-process-slot-per-stage": "len(self.procs) == len(self.specs)"},
+    loops={"for#1": dict(invariant={"three-spec-handles-per-stage-so-far-at-least": "len(log('safe-close')) >= 3 * _i"}, havoc_only=[]),
+           "for#2": dict(invariant={"t": "True"}, havoc_only=[]), "for#3": dict(invariant={"t": "True"}, havoc_only=[]), "for#4": dict(invariant={"t": "True"}, havoc_only=[])},
+    ensures={"every-earlier-stage-had-its-three-handles-released": "len(log('safe-close')) >= 3 * (len(self.specs) - 1) or len(self.specs) == 0"},
+    from_property="no additional open file descriptors ... Ctrl-C still interrupts (an interrupted wait for an earlier stage - KeyboardInterrupt is a BaseException - must not prevent "
+                  "closing the descriptors of the remaining stages: NO exception may escape this function)",
 )
